@@ -7,8 +7,8 @@
    [d]; [ctx_of k opts] says which objects the construction creates (it depends on the options:
    the LAST valid WithTransportType and WithCustomTransport decide whether SSHArgs / System /
    Standard / File exist); [derived k f]: the constructor computes [f] itself (network: the prompt
-   pattern is the joined privilege patterns; NETCONF: prompt pattern, NetconfConnection, and the
-   driver's own Logger) — WithPromptPattern is overridden there, which is what the code documents. *)
+   pattern is the joined privilege patterns; NETCONF: prompt pattern and NetconfConnection; the NETCONF
+   driver's Logger follows WithLogger since the fix of C19:netconf-logger-dropped) — WithPromptPattern is overridden there, which is what the code documents. *)
 From Scrapli Require Import Bytes Regex PlatformTypes Generated Options OptionsLemmas.
 
 (* the model has exactly one constructor per `With*` function of driver/options (names generated
@@ -87,7 +87,6 @@ Theorem C19_derived_network : forall opts s, build Network opts = Ok s ->
 Proof. exact derived_network. Qed.
 Theorem C19_derived_netconf : forall opts s, build Netconf opts = Ok s ->
   get (FS FPromptPattern) s = VS rx_ncd_v1Dot0Delim_src
-  /\ get (FN FLogger) s = VN 0
   /\ (exists_obj (ctx_of Netconf opts) OSSHArgs = true -> get (FB FNetconfConnection) s = VB true).
 Proof. exact derived_netconf. Qed.
 
@@ -101,17 +100,25 @@ Theorem C19_user_after_platform_additive : forall k plat user s, build k (plat +
   get (FL FExtraArgs) s = VL (lists_of (vals (FL FExtraArgs) plat) ++ lists_of (vals (FL FExtraArgs) user)).
 Proof. exact user_after_platform_additive. Qed.
 
+(* the NETCONF driver's logger is the one given with WithLogger / WithDefaultLogger (last wins) *)
+Theorem C19_netconf_logger : forall opts s, build Netconf opts = Ok s ->
+  get (FN FLogger) s = lastv (vals (FN FLogger) opts) (VN 0).
+Proof. intros opts s H. exact (last_wins Netconf opts s (FN FLogger) H eq_refl ltac:(discriminate) eq_refl). Qed.
+
 (* every recognised platform option name with a value of its documented YAML type becomes an
-   option without panic — EXCEPT transport-system-open-args ... *)
+   option without panic (transport-system-open-args included, since the fix of finding F12) *)
 Theorem C19_platform_typed : forall defs,
-  (forall d, In d defs -> In (fst d) modelled_platform_options /\ fst d <> open_args_name /\ well_typed d = true) ->
+  (forall d, In d defs -> In (fst d) modelled_platform_options /\ well_typed d = true) ->
   exists os, platform_options defs = Ok os /\ length os = length defs.
 Proof. exact platform_typed_ok. Qed.
+Theorem C19_platform_open_args : forall l,
+  platform_option open_args_name (YSeq l) = Ok (WithSystemTransportOpenArgs l).
+Proof. exact (proj2 (proj2 (proj2 (proj2 (proj2 (proj2 platform_option_effect)))))). Qed.
 
-(* ... which panics with every YAML value (finding F12): the property's last clause is refuted *)
-Theorem C19_platform_typed_refuted : forall p user v, In (open_args_name, v) (pd_options p) ->
-  build_platform p user = Panic.
-Proof. exact platform_open_args_panics. Qed.
+(* what still panics there: any value that is not a sequence of strings *)
+Theorem C19_platform_open_args_illtyped : forall p user v, In (open_args_name, v) (pd_options p) ->
+  (forall l, v <> YSeq l) -> build_platform p user = Panic.
+Proof. exact platform_open_args_illtyped_panics. Qed.
 
 Print Assumptions C19_inventory.
 Print Assumptions C19_build_closed_form.
@@ -132,4 +139,6 @@ Print Assumptions C19_derived_netconf.
 Print Assumptions C19_user_over_platform.
 Print Assumptions C19_user_after_platform_additive.
 Print Assumptions C19_platform_typed.
-Print Assumptions C19_platform_typed_refuted.
+Print Assumptions C19_netconf_logger.
+Print Assumptions C19_platform_open_args.
+Print Assumptions C19_platform_open_args_illtyped.
